@@ -525,11 +525,11 @@ class SFile(object):
         else:
             head = copy.deepcopy(header)
 
-        for key in ["_size", "_nrows", "_delim", "_shape", "_has_fields"]:
-            if key in head:
+        # the reader matches these names whatever their case
+        reserved = ["_size", "_nrows", "_delim", "_shape", "_has_fields"]
+        for key in list(head.keys()):
+            if isinstance(key, str) and key.lower() in reserved:
                 del head[key]
-            if key.upper() in head:
-                del head[key.upper()]
 
         descr = data.dtype.descr
 
